@@ -59,6 +59,8 @@ def party(rng, name, kind, pid=None, target=None, rich=True):
     if kind == "ref":
         ref = node("references", target, [["system", "sys"]] if rng.random() < 0.2 else [])
         kids = [ref]
+    elif kind == "src" and rng.random() < 0.1:
+        kids = []                      # a referenced element with no children of its own
     else:
         kids = body(rng, rich)
     if name in ROLED:
@@ -449,6 +451,215 @@ def statement_violations(t, o):
     return v
 
 
+# ------------------------------------------------------------------ history sensitivity
+# Assumption of every theorem: expand is a function of the tree it is given.  This phase tests
+# it: expand / edit in place / expand again on the SAME node objects; every call is compared with
+# the statement's expected tree AND with the same call on a freshly built identical tree.
+def find_live(root, nid):
+    for n in _nodes(root):
+        if n.id == nid:
+            return n
+    return None
+
+
+def apply_edit(root, e):
+    from metapype.model.node import Node
+    n = find_live(root, e["id"])
+    if n is None:
+        return
+    op = e["op"]
+    if op == "add":
+        c = NL.build(e["subtree"], attach=False)
+        n.add_child(c, e.get("index"))
+    elif op == "remove":
+        if n.parent is not None:
+            n.parent.remove_child(n)
+            Node.delete_node_instance(n.id)
+    elif op == "remove_children":
+        for c in list(n.children):
+            n.remove_child(c)
+            Node.delete_node_instance(c.id)
+    elif op == "set_content":
+        n.content = e["content"]
+    elif op == "set_attr":
+        n.add_attribute(e["k"], e["v"])
+    elif op == "del_attr":
+        if e["k"] in n.attributes:
+            n.remove_attribute(e["k"])
+
+
+_hid = [0]
+
+
+def hid_tree(t):
+    """explicit, fresh, deterministic ids for nodes added during a history"""
+    for n, _, _ in walk(t):
+        _hid[0] += 1
+        n["id"] = "h%d" % _hid[0]
+    return t
+
+
+def choose_edits(rng, snap):
+    """edits (plain data) for the tree whose snapshot is snap; returns (tag, [edits])"""
+    idmap, refs = {}, []
+    for n, p, _ in walk(snap):
+        for k, v in n["attrs"]:
+            if k == "id":
+                idmap.setdefault(v, n)
+        if p is not None and n["name"] == "references":
+            refs.append(n)
+    host = None
+    for n, _, _ in walk(snap):
+        if n["name"] == "dataset":
+            host = n
+            break
+    host = host or snap
+    if any(k == "id" for k, _ in host["attrs"]):
+        return "none", []
+
+    def add(sub, index=None):
+        e = {"op": "add", "id": host["id"], "subtree": hid_tree(sub)}
+        if index is not None:
+            e["index"] = index
+        return e
+    removable = [v for v, n in idmap.items() if n is not snap and n is not host]
+    dangling = [r["content"] for r in refs if r["content"] not in idmap and isinstance(r["content"], str)]
+    opts = ["new-ref", "dup-id", "retarget"]
+    if dangling:
+        opts += ["fix-dangling"] * 3
+    if removable:
+        opts += ["remove-source-add-ref", "remove-source-add-ref", "edit-source", "empty-source", "drop-id"]
+    if not idmap:
+        opts = ["retarget", "dangling-ref"]
+    tag = rng.choice(opts)
+    ref_name = rng.choice(PLAIN)
+
+    def ref_party(v, name=None):
+        name = name or ref_name
+        kids = [node("references", v)] + ([node("role", "r")] if name in ROLED else [])
+        return node(name, None, [], kids)
+    if tag == "fix-dangling":
+        v = rng.choice(dangling)
+        return tag, [add(party(rng, rng.choice(PLAIN), "src", v))]
+    if tag == "new-ref":
+        v = rng.choice(sorted(idmap)) if idmap else "nope"
+        return tag, [add(ref_party(v), rng.randint(0, len(host["kids"]))) for _ in range(rng.randint(1, 3))]
+    if tag == "dup-id":
+        v = rng.choice(sorted(idmap)) if idmap else "d1"
+        extra = [add(ref_party(v))] if rng.random() < 0.5 else []
+        return tag, [add(party(rng, rng.choice(PLAIN), "src", v))] + extra
+    if tag == "retarget":
+        v = "new%d" % rng.randint(0, 99)
+        return tag, [add(party(rng, rng.choice(PLAIN + ROLED), "src", v)), add(ref_party(v, rng.choice(PLAIN + ROLED)), 1)]
+    if tag == "dangling-ref":
+        return tag, [add(ref_party("nowhere"))]
+    v = rng.choice(sorted(removable))
+    x = idmap[v]
+    if tag == "remove-source-add-ref":
+        return tag, [{"op": "remove", "id": x["id"]}, add(ref_party(v))]
+    if tag == "drop-id":
+        return tag, [{"op": "del_attr", "id": x["id"], "k": "id"}, add(ref_party(v))]
+    if tag == "empty-source":
+        return tag, [{"op": "remove_children", "id": x["id"]}, add(ref_party(v))]
+    # edit-source: the next copies must show the source as it is now
+    es = [{"op": "add", "id": x["id"], "subtree": hid_tree(node("phone", "555-%d" % rng.randint(0, 99)))}]
+    leaf = [n for n, _, _ in walk(x) if not n["kids"] and n["content"] is not None]
+    if leaf:
+        es.append({"op": "set_content", "id": rng.choice(leaf)["id"], "content": "changed"})
+    return tag, es + [add(ref_party(v))]
+
+
+def canon_by_doc_order(snap, old):
+    ren = {}
+
+    def go(n):
+        c = dict(n)
+        if n["id"] not in old:
+            ren.setdefault(n["id"], "~%d" % len(ren))
+            c["id"] = ren[n["id"]]
+        c["kids"] = [go(k) for k in n["kids"]]
+        return c
+    return go(snap)
+
+
+def fresh_expand(snap):
+    """the same call on a freshly built identical tree (registry saved and restored around it)"""
+    from metapype.eml import references
+    from metapype.model.node import Node
+    saved = dict(Node.store)
+    Node.store.clear()
+    try:
+        root = NL.build(snap, attach=False)
+        try:
+            references.expand(root)
+            exc = None
+        except Exception as e:  # noqa
+            exc = type(e).__name__
+        return exc, NL.snapshot(root)
+    finally:
+        Node.store.clear()
+        Node.store.update(saved)
+
+
+def run_history(t, steps_edits=None, rng=None, max_steps=3):
+    """returns (violations [(key, what, step)], log). steps_edits given = replay; else chosen from rng."""
+    from metapype.eml import references
+    from metapype.model.node import Node
+    Node.store.clear()
+    root = NL.build(t, attach=False)
+    v, log = [], []
+    for step in range(max_steps):
+        snap = NL.snapshot(root)
+        exp = spec_expand(snap)
+        if exp != "ValueError" and not in_scope(snap):
+            break
+        old = set(ids_of(snap))
+        before = NL.deep_state([root])
+        try:
+            references.expand(root)
+            exc = None
+        except Exception as e:  # noqa
+            exc = type(e).__name__
+        after = NL.snapshot(root)
+        fexc, fafter = fresh_expand(snap)
+        log.append({"step": step, "expected": "ValueError" if exp == "ValueError" else "expanded", "observed": exc or "expanded",
+                    "fresh_tree_observed": fexc or "expanded"})
+        if exp == "ValueError":
+            if exc != "ValueError":
+                v.append(("history:fault-not-raised", f"call {step + 1} on the same tree objects: an id is used twice or a reference names no id "
+                          f"in the tree as it is now, expected ValueError, observed {exc or 'no exception'}", step))
+            if NL.deep_state([root]) != before:
+                v.append(("history:not-atomic", f"call {step + 1} on the same tree objects changed the tree although it "
+                          f"{'raised ' + exc if exc else 'had to raise'}", step))
+        else:
+            if exc is not None:
+                v.append(("history:raises", f"call {step + 1} on the same tree objects: the tree as it is now is resolvable, expand raised {exc}", step))
+                if NL.deep_state([root]) != before:
+                    v.append(("history:not-atomic", f"call {step + 1} raised {exc} and changed the tree", step))
+            else:
+                d = match(exp, after, old, set())
+                if d:
+                    v.append(("history:tree", f"call {step + 1} on the same tree objects: expanded tree differs from the statement's for the tree as it is now: {d}", step))
+        if exc != fexc or canon_by_doc_order(after, old) != canon_by_doc_order(fafter, old):
+            v.append(("history:differs-from-fresh-tree", f"call {step + 1} on the same tree objects gives {exc or 'a tree'} where the same call on a freshly "
+                      f"built identical tree gives {fexc or 'a (different) tree' if exc == fexc else fexc or 'a tree'}", step))
+        if v or step == max_steps - 1:
+            break
+        if steps_edits is not None:
+            if step >= len(steps_edits):
+                break
+            tag, edits = steps_edits[step]
+        else:
+            tag, edits = choose_edits(rng, after)
+            if not edits:
+                break
+        for e in edits:
+            apply_edit(root, e)
+        log[-1]["then"] = [tag, edits]
+    Node.store.clear()
+    return v, log
+
+
 # ------------------------------------------------------------------ Coq literals
 def coq_ft(t):
     if t["tail"] is None and t["prefix"] is None and not t["extras"]:
@@ -526,6 +737,20 @@ def run(ctx):
             ctx.count("statement-only(>120 nodes)")
         if nrefs:
             ctx.sample({"tags": tags, "nodes": size(t), "outcome": o["exc"] or "expanded", "created": len(o["created"])}, limit=8)
+    # history sensitivity: expand / edit in place / expand again on the same objects
+    hist_docs = [(tags, t) for tags, t in allcases if size(t) <= 120]
+    ctx.rng.shuffle(hist_docs)
+    for tags, t in hist_docs[: (600 if ctx.tier == "thorough" else 120)]:
+        v, log = run_history(t, rng=ctx.rng)
+        ctx.case(("history", json.dumps(t, sort_keys=True)), len(log) > 1)
+        ctx.count("history-calls", len(log))
+        for entry in log:
+            if "then" in entry:
+                ctx.count("history-edit=" + entry["then"][0])
+            ctx.count("history-outcome=" + entry["observed"])
+        for key, what, step in v:
+            ctx.fail(f"C16:{key}", what, {"kind": "impl-vs-statement", "history": True, "tree": t, "tags": tags, "failing_call": step + 1,
+                                          "edits": [e.get("then") for e in log if "then" in e], "log": log})
     bad, errors = RL.coq_compare(ctx, "corr", "run_ecase", cterms, wterms, shard=150, header=HEADER, eqb="eobs_eqb")
     ctx.extra["cases_sent_to_coq"] = len(cterms)
     ctx.extra["traces_validated_against_impl"] = len(cterms) - len(bad) - 150 * len(errors)
@@ -547,6 +772,14 @@ def replay(ctx, data):
     t = case.get("tree")
     if t is None:
         print(json.dumps(data, indent=1)[:2000])
+        return
+    if case.get("history"):
+        v, log = run_history(t, steps_edits=case.get("edits", []), max_steps=len(case.get("edits", [])) + 1)
+        ctx.case("replay-history", True)
+        print("calls:", json.dumps([{k: e[k] for k in ("step", "expected", "observed", "fresh_tree_observed")} for e in log]))
+        for key, what, step in v:
+            print("statement violated:", key, what)
+            ctx.fail(f"C16:{key}", what, {"kind": "impl-vs-statement", "history": True, "tree": t, "edits": case.get("edits"), "log": log})
         return
     o = run_impl(t)
     ctx.case("replay", True)
